@@ -349,7 +349,7 @@ fn c07_schemas(ctx: &Ctx) -> Vec<Value> {
         }
     }
     for s in jsongen::combinator_schemas() {
-        if s.get("allOf").is_none() && s.get("oneOf").is_none() && s.get("x-guidance").is_none() {
+        if s.get("allOf").is_none() && s.get("oneOf").is_none() && s.get("x-guidance").is_none() && s.get("pattern").is_none() && s.get("format").is_none() && !s.to_string().contains("multipleOf\":3") {
             v.push(s);
         }
     }
